@@ -1,15 +1,16 @@
 #!/bin/sh
 # usage: tools/try_seed.sh <dir-with-patch.diff> [property ...]   (default: all built properties)
-# Applies the patch to /repo, runs the quick checks, and undoes it straight afterwards.
+# Applies the patch to a scratch worktree of /repo HEAD (so that /repo itself is never dirty while other tools read
+# it), runs the quick checks with --repo on it, and removes the worktree.
 d="$1"; shift
-cd /repo || exit 2
-if ! git diff --quiet; then echo "/repo is dirty; refusing"; exit 2; fi
-git apply "$d/patch.diff" || { echo "patch does not apply"; exit 2; }
+wt=/tmp/wt/try-$$
+git -C /repo worktree add --detach "$wt" HEAD >/dev/null 2>&1 || { echo "cannot create worktree"; exit 2; }
+trap 'git -C /repo worktree remove --force "$wt" >/dev/null 2>&1' EXIT
+git -C "$wt" apply "$d/patch.diff" || { echo "patch does not apply"; exit 2; }
 cd /verif
 props="$*"
 [ -n "$props" ] || props=$(/venv/bin/python -c "import json;print(' '.join(c['property_id'] for c in json.load(open('MANIFEST.json'))['checks']))")
 for p in $props; do
-  out=$(./check "$p" --no-evidence 2>&1); code=$?
+  out=$(./check "$p" --no-evidence --repo "$wt" 2>&1); code=$?
   echo "== $p exit=$code"; echo "$out" | grep -E "^(VIOLATION|ANALYSIS-ERROR|  clause=|  construct)" | head -12
 done
-git -C /repo checkout -- . 
